@@ -62,6 +62,14 @@ CHECKS = {
   text=BT + "Slice: the j-th page read fails." + MB + " For one clean operation of every kind (low level scans/searches and every high level select incl. nested lookups) per object, the k-th read fails for every k in 1..R (sampled above a limit) as I/O error or short read on a fresh handle, plus an unobtainable lock; TLC requires an error and a delivered prefix of the Reference.",
   note=NOTE + "faults are injected at the pager interface of the traced handle (detectable faults only, as the property states); the driver's error path is C19's",
   design="6 C12, 3.3", category="model_checking"),
+ "C15": dict(
+  technique="TLA+ spec Header.tla (field map + accept/reject/left-open classification); TLC-exhaustive classification of every single-byte patch; trace validation of open/re-read outcomes on patched real files by TLC",
+  text="Header.tla states which headers must be refused, accepted or are left open. TLC classifies all 100x256 single-byte patches for each legal page size (MC_Header). "
+       "Every patch in the tier's set is applied to SQLite-written files of each page-size encoding, at open and between reads of a long-lived warm handle "
+       "(also inside one explicit RLock bracket); 12 read entry points run per experiment and TLC judges outcome (accepted = base rows, rejected = error and no rows anywhere) "
+       "and the header parser's own result (page size, change counter, cookie) against the spec. Real WAL files with unmerged frames, UTF-16le/be and legacy-format files are included.",
+  note=NOTE + "single-byte patches only (multi-field combinations not enumerated); a different-but-legal page size on an existing file is not judged (file becomes inconsistent)",
+  design="6 C15, 3.4"),
 }
 
 NOT_YET = "check not built yet (work in progress; see DESIGN.md section 9 order of work)"
